@@ -1,11 +1,13 @@
 import CookModel.Driver.Num
 import CookModel.Driver.Syntax
 import CookModel.Driver.Ffi
+import CookModel.Driver.Serde
 /- Registry of line-protocol handlers. One line per area. -/
 namespace Cook.Driver
 def handlers : List (List String → Option String) := [
   handleNum,
   handleSyntax,
-  handleFfi
+  handleFfi,
+  handleSerde
 ]
 end Cook.Driver
